@@ -87,7 +87,7 @@ RULE = (
 )
 SCOPE = {
     # roots per shard (16 shards); every root brings its children / CDS / parents along as further targets
-    "quick": {"NH": 3, "pcache": 40, "roots": {"loc": 6, "seq": 2, "codon": 1, "tx": 4, "cds": 4, "feat": 2, "var": 1, "gene": 3, "fcoll": 1, "vcoll": 1, "coll": 2},
+    "quick": {"NH": 3, "pcache": 60, "roots": {"loc": 10, "seq": 3, "codon": 1, "tx": 7, "cds": 7, "feat": 4, "var": 2, "gene": 5, "fcoll": 2, "vcoll": 2, "coll": 3},
               "qcap": {"leaf": 150, "mid": 130, "coll": 80}, "opcap": {"leaf": 90, "mid": 70, "coll": 40}},
     "thorough": {"NH": 8, "pcache": 400, "roots": {"loc": 40, "seq": 12, "codon": 4, "tx": 24, "cds": 24, "feat": 12, "var": 6, "gene": 14, "fcoll": 6, "vcoll": 5, "coll": 7},
                  "qcap": {"leaf": 400, "mid": 320, "coll": 220}, "opcap": {"leaf": 200, "mid": 150, "coll": 80}},
